@@ -624,7 +624,7 @@ fn caller_save_registers_info(context: &[ContextBinding]) -> (usize, Vec<usize>)
     registers_to_save.push(0);
     registers_to_save.push(1);
     // the last register will contain the return address, so it must be saved if in use
-    if first_free_register > REGISTER_NUM {
+    if first_free_register >= REGISTER_NUM {
         registers_to_save.push(REGISTER_NUM - 1);
     }
     for (offset, binding) in context.iter().take(caller_save_count / 2).enumerate() {
